@@ -68,6 +68,11 @@ func c01Case(r *evid.Run, tier string, idx int, g *rng.R) {
 		d.Finish()
 	}
 	w, err := newWorld(d)
+	if err == nil && idx%4 == 3 {
+		// every fourth case runs the evaluator on the independent Cursor implementation (R-ref)
+		w, err = newRefWorld(d)
+		r.Count("cases_on_reference_cursor", 1)
+	}
 	if err != nil {
 		r.Violate("store-tree-mismatch", map[string]any{"case": idx, "what": err.Error(), "document": d.Dump()})
 		return
